@@ -4,6 +4,8 @@ import (
 	"fmt"
 	"github.com/privacybydesign/gabi"
 	"github.com/privacybydesign/gabi/big"
+	"sync"
+	"sync/atomic"
 )
 
 // C05: CL signatures — valid ones verify, invalid ones never do.
@@ -66,7 +68,69 @@ func nextPrime(x *big.Int, dir int64) *big.Int {
 	return p
 }
 
+func init() {
+	// several goroutines sign and verify blocks with long oversized messages at the same time: every
+	// signature made is valid, every valid signature verifies (what stands in for an oversized
+	// message is a function of that message alone)
+	executors["cl-concurrent"] = func(o Op) string {
+		kp := execKey(o.str("key"))
+		n, size, rounds := o.int("goroutines"), o.int("bytes"), o.int("rounds")
+		seed := unhx(o["seed"]).Int64()
+		blocks := make([][]*big.Int, n)
+		sigs := make([]*gabi.CLSignature, n)
+		for i := range blocks {
+			blocks[i] = []*big.Int{bi(int64(i + 1))}
+			for j := 0; j < 3; j++ {
+				b := make([]byte, size)
+				for k := range b {
+					b[k] = byte(seed + int64(i*7+j*13+k*31) + int64(k>>8))
+				}
+				b[0] |= 0x80
+				blocks[i] = append(blocks[i], new(big.Int).SetBytes(b))
+			}
+			sg, err := gabi.SignMessageBlock(kp.sk, kp.pk, blocks[i])
+			if err != nil {
+				return "sign-err"
+			}
+			sigs[i] = sg
+		}
+		var bad int64
+		var wg sync.WaitGroup
+		for i := 0; i < n; i++ {
+			wg.Add(1)
+			go func(i int) {
+				defer wg.Done()
+				defer func() {
+					if recover() != nil {
+						atomic.AddInt64(&bad, 1)
+					}
+				}()
+				for r := 0; r < rounds; r++ {
+					if !sigs[i].Verify(kp.pk, blocks[i]) {
+						atomic.AddInt64(&bad, 1)
+					}
+					if r%4 == 0 {
+						sg, err := gabi.SignMessageBlock(kp.sk, kp.pk, blocks[(i+r)%n])
+						if err != nil || !sg.Verify(kp.pk, blocks[(i+r)%n]) {
+							atomic.AddInt64(&bad, 1)
+						}
+					}
+				}
+			}(i)
+		}
+		wg.Wait()
+		if bad > 0 {
+			return fmt.Sprintf("failed %d", bad)
+		}
+		return "ok"
+	}
+}
+
 func genC05(g *Rng, tier string, emit func(Op)) {
+	emit(declKey(fixedKey("k1024a", false)))
+	emit(declSk(fixedKey("k1024a", false)))
+	emit(Op{"op": "cl-concurrent", "class": "concurrent-oversized-messages", "label": "ok", "nomodel": true, "fkey": "C05/concurrent-oversized-messages",
+		"key": "k1024a", "goroutines": 8, "bytes": 200000, "rounds": 12, "seed": hx(g.bits(40))})
 	keys := []*KeyPair{fixedKey("k1024a", false), fixedKey("k1024b", false)}
 	rounds := 6
 	if tier == "thorough" {
@@ -152,6 +216,9 @@ func genC05(g *Rng, tier string, emit func(Op)) {
 			{
 				msn := append([]*big.Int{}, ms...)
 				j := g.intn(nb)
+				if r%4 < 2 {
+					j = 0 // the first message (the slot of the secret key in credentials)
+				}
 				if r%2 == 0 {
 					msn[j] = g.exactBits(int(pk.Params.Lm) + 1 + g.intn(400))
 				}
